@@ -15,7 +15,6 @@ import (
 	"github.com/NethermindEth/juno/core"
 	"github.com/NethermindEth/juno/core/felt"
 	"github.com/NethermindEth/juno/db"
-	"github.com/NethermindEth/juno/db/memory"
 	"github.com/NethermindEth/juno/l1/eth"
 )
 
@@ -403,6 +402,9 @@ func (h *harness) storePhase(versions []string, rots int) {
 }
 
 // suPatternPhase: the 3^7 state-diff section patterns as VALID blocks on top of a base block, through Store.
+// One node per (configuration, worker): base block stored once; each pattern block is stored, read back through every
+// Reader method (and the base block again), then RevertHead returns the node to the base. (A fresh Blockchain per
+// pattern costs an 8 MB running-filter allocation each; if RevertHead fails the node is simply rebuilt.)
 func (h *harness) suPatternPhase(patterns []int) {
 	base, err := chain.Build(nil, baseSpec("0.14.0", nil))
 	if err != nil {
@@ -412,57 +414,13 @@ func (h *harness) suPatternPhase(patterns []int) {
 	if err != nil {
 		h.r.Infra("base: %v", err)
 	}
-	// base images for the memory backend
-	baseMem := map[bool]*memory.Database{}
-	for _, ns := range []bool{false, true} {
-		d := memory.New()
-		if err := storeCopy(chain.NewNode(d, ns), base); err != nil {
-			h.r.Infra("base store: %v", err)
-		}
-		baseMem[ns] = d
-	}
 	_, h1 := chain.Cairo0(1)
 	cl1, _ := chain.Cairo0(1)
 	s2, sh2, _, c2v2 := chain.Sierra(2)
 	_, sh1, _, c1v2 := chain.Sierra(1)
 	_, h0 := chain.Cairo0(0)
-	type job struct {
-		p   int
-		cfg nodeCfg
-	}
-	// quick tier: pebblev2 runs the 27 patterns of the orthogonal array OA(27,7,3,2) (columns = the linear forms a, b, c,
-	// a+b, a+2b, a+c, a+2c over Z3: every pair of sections sees every pair of levels); the record level already wrote all
-	// 2187 patterns on pebblev2. Thorough: all 2187 on all four configurations.
-	oa := map[int]bool{}
-	for a := 0; a < 3; a++ {
-		for b := 0; b < 3; b++ {
-			for c := 0; c < 3; c++ {
-				lv := []int{a, b, c, (a + b) % 3, (a + 2*b) % 3, (a + c) % 3, (a + 2*c) % 3}
-				p := 0
-				for k := 6; k >= 0; k-- {
-					p = p*3 + lv[k]
-				}
-				oa[p] = true
-			}
-		}
-	}
-	var jobs []job
-	for _, p := range patterns {
-		for _, c := range nodeCfgs {
-			if c.be != 0 && h.r.Quick() && !oa[p] {
-				continue
-			}
-			jobs = append(jobs, job{p, c})
-		}
-	}
-	h.r.Set("su_pattern_store_jobs", int64(len(jobs)))
-	ev.Par(len(jobs), workers(), func(i int) {
-		if h.r.OutOfTime() {
-			h.r.Incomplete("state-update pattern sweep through Store cut by the time budget")
-			return
-		}
-		j := jobs[i]
-		s := suShape(j.p)
+	mkSpec := func(p int) chain.BlockSpec {
+		s := suShape(p)
 		d := &core.StateDiff{}
 		classes := map[felt.Felt]core.ClassDefinition{}
 		set := func(l int, empty, pop func()) {
@@ -484,43 +442,73 @@ func (h *harness) suPatternPhase(patterns []int) {
 		set(s[6], func() { d.MigratedClasses = map[felt.SierraClassHash]felt.CasmClassHash{} }, func() {
 			d.MigratedClasses = map[felt.SierraClassHash]felt.CasmClassHash{felt.SierraClassHash(sh1): felt.CasmClassHash(c1v2)}
 		})
-		spec := chain.BlockSpec{Version: "0.14.1", Timestamp: 2000, Diff: d, Classes: classes,
-			Txs: []chain.TxSpec{{Kind: chain.TxKinds[j.p%len(chain.TxKinds)], Salt: 77}}}
-		cfg := fmt.Sprintf("%s su-pattern %v", j.cfg, s)
-		e, err := chain.Build(base, spec)
-		if err != nil {
-			h.r.Infra("pattern %v: build: %v", s, err)
+		return chain.BlockSpec{Version: "0.14.1", Timestamp: 2000, Diff: d, Classes: classes,
+			Txs: []chain.TxSpec{{Kind: chain.TxKinds[p%len(chain.TxKinds)], Salt: 77}}}
+	}
+	per := workers() / len(nodeCfgs)
+	if per < 1 {
+		per = 1
+	}
+	type job struct {
+		cfg    nodeCfg
+		lo, hi int
+	}
+	var jobs []job
+	for _, c := range nodeCfgs {
+		for k := 0; k < per; k++ {
+			jobs = append(jobs, job{c, len(patterns) * k / per, len(patterns) * (k + 1) / per})
 		}
-		cm, err := customise(e, nil, nil)
-		if err != nil {
-			h.r.Infra("pattern %v: hash: %v", s, err)
-		}
+	}
+	h.r.Set("su_pattern_store_jobs", int64(len(patterns)*len(nodeCfgs)))
+	ev.Par(len(jobs), len(jobs), func(i int) {
+		j := jobs[i]
 		var store db.KeyValueStore
 		var bc *blockchain.Blockchain
-		if j.cfg.be == 0 {
-			store = baseMem[j.cfg.newState].Copy()
-			bc = chain.NewNode(store, j.cfg.newState)
-		} else {
-			// (blockchain.New allocates the 8 MB running event filter: one node for both stores)
+		open := func() {
+			if store != nil {
+				store.Close()
+			}
 			store = backends[j.cfg.be].open()
 			bc = chain.NewNode(store, j.cfg.newState)
 			if err := storeCopy(bc, base); err != nil {
-				h.r.Infra("base store on %s: %v", cfg, err)
+				h.r.Infra("base store on %s: %v", j.cfg, err)
 			}
 		}
-		defer store.Close()
-		if err := storeCopy(bc, e); err != nil {
-			h.r.Violate("reader/store rejected a valid state-update pattern", map[string]any{"cfg": cfg, "err": err.Error()})
-			return
-		}
-		h.r.Add("blocks_stored", 1)
-		h.r.Add("evaluations", 2)
-		okA := h.checkReader(bc, store, &storedBlock{E: e, CM: cm}, true, cfg)
-		okB := h.checkReader(bc, store, &storedBlock{E: base, CM: baseCM}, false, cfg+" (base block)")
-		if okA && okB {
-			h.r.Outcome("su-pattern ok")
-		} else {
-			h.r.Outcome("su-pattern mismatch")
+		open()
+		defer func() { store.Close() }()
+		for _, p := range patterns[j.lo:j.hi] {
+			if h.r.OutOfTime() {
+				h.r.Incomplete("state-update pattern sweep through Store cut by the time budget")
+				return
+			}
+			s := suShape(p)
+			cfg := fmt.Sprintf("%s su-pattern %v", j.cfg, s)
+			e, err := chain.Build(base, mkSpec(p))
+			if err != nil {
+				h.r.Infra("pattern %v: build: %v", s, err)
+			}
+			cm, err := customise(e, nil, nil)
+			if err != nil {
+				h.r.Infra("pattern %v: hash: %v", s, err)
+			}
+			if err := storeCopy(bc, e); err != nil {
+				h.r.Violate("reader/store rejected a valid state-update pattern", map[string]any{"cfg": cfg, "err": err.Error()})
+				open()
+				continue
+			}
+			h.r.Add("blocks_stored", 1)
+			h.r.Add("evaluations", 2)
+			okA := h.checkReader(bc, store, &storedBlock{E: e, CM: cm}, true, cfg)
+			okB := h.checkReader(bc, store, &storedBlock{E: base, CM: baseCM}, false, cfg+" (base block)")
+			if okA && okB {
+				h.r.Outcome("su-pattern ok")
+			} else {
+				h.r.Outcome("su-pattern mismatch")
+			}
+			if err := bc.RevertHead(); err != nil {
+				h.r.Add("su_pattern_revert_fallbacks", 1) // RevertHead is C04's subject; here it is only a shortcut
+				open()
+			}
 		}
 	})
 }
